@@ -167,9 +167,36 @@ def _arith(opname, x, y):
     raise Unsupported(opname)
 
 
+def root_power(m, r, k):
+    """r^k for an integer root r introduced by the root contract (props/contracts.py): a fresh integer tied to the contract's
+    `exact` flag by the linear part of the definition of floor(N^(1/k)) - the power itself is never encoded"""
+    facts = getattr(m, 'root_vars', {})
+    f = facts.get(r.get_id()) if is_sym(r) else None
+    if f is None or f[3] != k:
+        return None
+    memo = getattr(m, '_root_powers', None)
+    if memo is None:
+        memo = m._root_powers = {}
+    key = (r.get_id(), k)
+    if key not in memo:
+        N, rr, exact, _ = f
+        pw = m.fresh('rootpow')
+        cs = [pw >= 0, pw <= N, exact == (pw == N)]
+        if k == 2:
+            cs.append(N <= pw + 2 * rr)          # N < (r+1)^2
+        m.assume(z3.And(cs))
+        memo[key] = pw
+    return memo[key]
+
+
 @summary(r'<&?%s as std::ops::(Add|Sub|Mul)(?:<&?(?:%s|%s)>)?>::(add|sub|mul)' % (BIG, BIG, INT))
 def big_binop(m, mt, args, tys, dty):
-    return _arith(mt.group(2), deref(args[0]), deref(args[1]))
+    x, y = deref(args[0]), deref(args[1])
+    if mt.group(2) in ('mul', 'mul_assign') and is_sym(x) and is_sym(y) and x.get_id() == y.get_id():
+        p = root_power(m, x, 2)
+        if p is not None:
+            return p
+    return _arith(mt.group(2), x, y)
 
 
 @summary(r'<&?%s as std::ops::(Add|Sub|Mul)<&?%s>>::(add|sub|mul)' % (INT, BIG))
@@ -1047,12 +1074,45 @@ def str_find(m, mt, args, tys, dty):
     return NONE()
 
 
+def _utf8_continuation(sl, i):
+    """strings are UTF-8 byte sequences (ASCII text coincides with its chars): is byte offset i inside a multi-byte char?"""
+    if 0 < i < len(sl):
+        b = sl.base[sl.lo + i]
+        return isinstance(b, int) and 0x80 <= b <= 0xBF
+    return False
+
+
+def _utf8_decode(items):
+    """code points of a byte list; symbolic items (harness: ASCII by assumption) and ASCII bytes pass through"""
+    out, i = [], 0
+    while i < len(items):
+        b = items[i]
+        if not isinstance(b, int) or b < 0x80:
+            out.append(b)
+            i += 1
+            continue
+        n = 2 if b >> 5 == 0b110 else (3 if b >> 4 == 0b1110 else (4 if b >> 3 == 0b11110 else 1))
+        tail = items[i + 1:i + n]
+        if n == 1 or len(tail) != n - 1 or not all(isinstance(t, int) and 0x80 <= t <= 0xBF for t in tail):
+            out.append(0xFFFD)
+            i += 1
+            continue
+        cp = b & (0xFF >> (n + 1))
+        for t in tail:
+            cp = (cp << 6) | (t & 0x3F)
+        out.append(cp)
+        i += n
+    return out
+
+
 @summary(r'core::str::<impl str>::split_at')
 def str_split_at(m, mt, args, tys, dty):
     sl = str_slice(args[0])
     i = m.concretize(args[1])
     if i > len(sl):
         raise Panic('IndexOOB', 'split_at')
+    if _utf8_continuation(sl, i):
+        raise Panic('CharBoundary', 'split_at: byte index is not a char boundary')
     return Agg('tuple', '()', [SliceV(sl.base, sl.lo, sl.lo + i), SliceV(sl.base, sl.lo + i, sl.hi)])
 
 
@@ -1062,6 +1122,8 @@ def str_index_range(m, mt, args, tys, dty):
     i = m.concretize(args[1].fields[0])
     if i > len(sl):
         raise Panic('IndexOOB', 'str index')
+    if _utf8_continuation(sl, i):
+        raise Panic('CharBoundary', 'str index: byte index is not a char boundary')
     if mt.group(1) == 'From':
         return SliceV(sl.base, sl.lo + i, sl.hi)
     return SliceV(sl.base, sl.lo, sl.lo + i)
@@ -1069,7 +1131,12 @@ def str_index_range(m, mt, args, tys, dty):
 
 @summary(r'core::str::<impl str>::chars')
 def str_chars(m, mt, args, tys, dty):
-    return CopiedV(IterV(str_slice(args[0])))       # Chars yields char values, not references
+    sl = str_slice(args[0])
+    items = sl.base[sl.lo:sl.hi]
+    if any(isinstance(b, int) and b >= 0x80 for b in items):
+        dec = _utf8_decode(items)               # multi-byte chars: one char per sequence
+        return CopiedV(IterV(SliceV(dec, 0, len(dec))))
+    return CopiedV(IterV(sl))       # Chars yields char values, not references
 
 
 @summary(r"#superseded-chars-filter")
@@ -2447,6 +2514,8 @@ def str_get_range(m, mt, args, tys, dty):
     lo, hi = _range_bounds(m, args[1], len(sl), mt.group(1))
     if lo > hi or hi > len(sl):
         return NONE()
+    if _utf8_continuation(sl, lo) or _utf8_continuation(sl, hi):
+        return NONE()
     return some(SliceV(sl.base, sl.lo + lo, sl.lo + hi))
 
 
@@ -3076,6 +3145,9 @@ def big_pow_trait(m, mt, args, tys, dty):
     base = deref(args[0])
     e = m.concretize(args[1])
     if is_sym(base):
+        p = root_power(m, base, e)
+        if p is not None:
+            return p
         if e > 3:
             raise Unsupported('pow of symbolic base')
         r = 1
@@ -3729,3 +3801,509 @@ def float_to_int(m, v, ity):
     if m.branch_bool(val < lo):
         return lo
     return val
+
+
+# ---- broader num-bigint / num-integer surface (plausible rewrites use it even where the pinned code does not) -----------------
+@summary(r'<%s as (?:num_integer::)?Integer>::(is_even|is_odd)' % BIG)
+def big_integer_parity(m, mt, args, tys, dty):
+    x = deref(args[0])
+    r = x % 2 == 0
+    if mt.group(1) == 'is_odd':
+        r = (not r) if isinstance(r, bool) else z3.Not(r)
+    return r
+
+
+@summary(r'(?:num_bigint::)?Big(?:Int|Uint)::trailing_zeros')
+def big_trailing_zeros(m, mt, args, tys, dty):
+    x = zabs(deref(args[0]))
+    if not is_sym(x):
+        return NONE() if x == 0 else some((x & -x).bit_length() - 1)
+    k = trailing_zeros_fork(m, x, 192)
+    if k == 192:
+        if m.feasible(x != 0):
+            raise BoundExceeded('BigUint::trailing_zeros beyond 192 bits')
+        return NONE()
+    return some(k)
+
+
+@summary(r'(?:num_bigint::)?Big(?:Int|Uint)::(to_u32_digits|to_u64_digits)')
+def big_to_word_vec(m, mt, args, tys, dty):
+    it = (big_iter_u32 if mt.group(1) == 'to_u32_digits' else big_iter_u64)(m, None, [args[0]], None, None)
+    ws = list(it.words)
+    if 'BigInt' in (tys[0] if tys else ''):
+        return Agg('tuple', '()', [big_sign(m, None, [args[0]], None, None), VecV(ws)])
+    return VecV(ws)
+
+
+@summary(r'(?:num_bigint::)?Big(?:Int|Uint)::pow')
+def big_pow_inherent(m, mt, args, tys, dty):
+    base, k = deref(args[0]), args[1]
+    if is_sym(k):
+        k = m.concretize(k, limit=64)
+    if k > 20000:
+        raise BoundExceeded('pow with exponent %d' % k)
+    if is_sym(base) and k > 1:
+        p = root_power(m, base, k)
+        if p is not None:
+            return p
+        raise Unsupported('symbolic base to the power %d' % k)
+    return base ** k
+
+
+@summary(r'<%s as (?:num_traits::)?Checked(Add|Sub|Mul|Div)>::checked_(?:add|sub|mul|div)|(?:num_bigint::)?Big(?:Int|Uint)::checked_(add|sub|mul|div)' % BIG)
+def big_checked(m, mt, args, tys, dty):
+    x, y = deref(args[0]), deref(args[1])
+    op = (mt.group(1) or mt.group(2)).lower()
+    unsigned = 'BigUint' in (tys[0] if tys else '')
+    if op == 'add':
+        return some(x + y)
+    if op == 'mul':
+        return some(x * y)
+    if op == 'sub':
+        if unsigned and m.branch_bool(x < y):
+            return NONE()
+        return some(x - y)
+    if m.branch_bool(y == 0):
+        return NONE()
+    q, r = m.tdivrem(x, y)
+    return some(q)
+
+
+@summary(r'<&?%s as PartialOrd(?:<.*>)?>::partial_cmp' % BIG)
+def big_partial_cmp(m, mt, args, tys, dty):
+    x, y = deref(args[0]), deref(args[1])
+    k = m.choose([x < y, x == y, x > y]) if (is_sym(x) or is_sym(y)) else (0 if x < y else (1 if x == y else 2))
+    return some(ordering(k - 1))
+
+
+@summary(r'<%s as Ord>::(max|min)' % BIG)
+def big_max_min(m, mt, args, tys, dty):
+    x, y = deref(args[0]), deref(args[1])
+    if not (is_sym(x) or is_sym(y)):
+        return max(x, y) if mt.group(1) == 'max' else min(x, y)
+    c = (x >= y) if mt.group(1) == 'max' else (x <= y)
+    return z3.If(c, x, y)
+
+
+@summary(r'<(%s) as TryFrom<&?%s>>::try_from' % (INT, BIG))
+def prim_try_from_big(m, mt, args, tys, dty):
+    x = deref(args[0])
+    lo, hi = INT_RANGE[mt.group(1)]
+    ok = z3.And(x >= lo, x <= hi) if is_sym(x) else (lo <= x <= hi)
+    if m.branch_bool(ok):
+        return mk_enum('Result', 'Ok', [x])
+    return mk_enum('Result', 'Err', [Agg('struct', 'TryFromBigIntError', [])])
+
+
+@summary(r'<(?:num_bigint::)?BigUint as TryFrom<&?(?:num_bigint::)?BigInt>>::try_from|(?:num_bigint::)?BigInt::to_biguint')
+def biguint_try_from_bigint(m, mt, args, tys, dty):
+    x = deref(args[0])
+    neg = m.branch_bool(x < 0)
+    if mt.group(0).endswith('to_biguint'):
+        return NONE() if neg else some(x)
+    return mk_enum('Result', 'Err', [Agg('struct', 'TryFromBigIntError', [])]) if neg else mk_enum('Result', 'Ok', [x])
+
+
+@summary(r'<%s as (?:num_traits::)?FromPrimitive>::from_(%s)' % (BIG, INT))
+def big_from_primitive(m, mt, args, tys, dty):
+    x = args[0]
+    if 'BigUint' in mt.group(0) and m.branch_bool(x < 0):
+        return NONE()
+    return some(x)
+
+
+@summary(r'num_integer::(div_floor|mod_floor|div_mod_floor)::<(%s)>' % INT)
+def prim_floor_div(m, mt, args, tys, dty):
+    x, y = args
+    if m.branch_bool(y == 0):
+        raise Panic('DivByZero', 'division by zero')
+    if not is_sym(x) and not is_sym(y):
+        q, r = x // y, x % y
+    else:
+        if is_sym(y):
+            y = m.concretize(y, limit=64)
+        q, r = m.fresh('fq'), m.fresh('fr')
+        m.assume(z3.And(x == q * y + r, r >= 0, r < abs(y)) if y > 0 else z3.And(x == q * y + r, r <= 0, r > y))
+    op = mt.group(1)
+    return q if op == 'div_floor' else (r if op == 'mod_floor' else Agg('tuple', '()', [q, r]))
+
+
+@summary(r'<%s as (?:num_traits::)?One>::set_one|<%s as (?:num_traits::)?Zero>::set_zero' % (BIG, BIG))
+def big_set_const(m, mt, args, tys, dty):
+    args[0].set(1 if 'set_one' in mt.group(0) else 0)
+    return Agg('tuple', '()', [])
+
+
+# ---- broader std surface (plausible rewrites of the crate use these) ---------------------------------------------------------
+@summary(r'core::str::<impl str>::parse::<(%s)>' % INT)
+def str_parse_int(m, mt, args, tys, dty):
+    return int_from_str(m, mt, args, tys, dty)
+
+
+@summary(r'std::cmp::Ordering::(then|is_lt|is_le|is_gt|is_ge|is_eq|is_ne|then_with::<.*>)')
+def ordering_methods(m, mt, args, tys, dty):
+    op = mt.group(1)
+    v = args[0].variant
+    if op == 'then':
+        return args[0] if v != 'Equal' else args[1]
+    if op.startswith('then_with'):
+        return args[0] if v != 'Equal' else call_callable(m, args[1], [], 'Ordering')
+    return {'is_lt': v == 'Less', 'is_le': v != 'Greater', 'is_gt': v == 'Greater', 'is_ge': v != 'Less', 'is_eq': v == 'Equal', 'is_ne': v != 'Equal'}[op]
+
+
+@summary(r'core::num::<impl (%s)>::overflowing_(add|sub|mul)' % INT)
+def int_overflowing(m, mt, args, tys, dty):
+    x, y = args
+    lo, hi = INT_RANGE[mt.group(1)]
+    v = {'add': x + y, 'sub': x - y, 'mul': x * y}[mt.group(2)]
+    n = hi - lo + 1
+    if not is_sym(v):
+        return Agg('tuple', '()', [(v - lo) % n + lo, not (lo <= v <= hi)])
+    ovf = m.branch_bool(z3.Or(v < lo, v > hi))
+    if not ovf:
+        return Agg('tuple', '()', [v, False])
+    k = m.fresh('wrapk')
+    w = m.fresh('wrapv')
+    m.assume(z3.And(w == v - k * n, w >= lo, w <= hi))
+    return Agg('tuple', '()', [w, True])
+
+
+@summary(r'core::num::<impl (%s)>::div_ceil' % INT)
+def int_div_ceil(m, mt, args, tys, dty):
+    x, y = args
+    if m.branch_bool(y == 0):
+        raise Panic('DivByZero', 'division by zero')
+    if not is_sym(x) and not is_sym(y):
+        return -((-x) // y)
+    if is_sym(y):
+        y = m.concretize(y, limit=64)
+    q, r = m.fresh('cq'), m.fresh('cr')
+    m.assume(z3.And(x == q * y - r, r >= 0, r < abs(y)) if y > 0 else z3.And(x == q * y - r, r <= 0, r > y))
+    return q
+
+
+@summary(r'core::slice::<impl \[.*\]>::(get|get_mut)(?:::<usize>)?')
+def slice_get_index(m, mt, args, tys, dty):
+    sl = as_slice(args[0])
+    i = args[1]
+    if isinstance(i, Agg):
+        raise Unsupported('slice::get with a range')
+    if is_sym(i):
+        i = m.concretize(i, limit=64)
+    if 0 <= i < len(sl):
+        return some(sl.ref(i))
+    return NONE()
+
+
+@summary(r'std::vec::Vec::<.*>::split_off|std::string::String::split_off')
+def vec_split_off(m, mt, args, tys, dty):
+    v = deref(args[0])
+    at = args[1]
+    if is_sym(at):
+        at = m.concretize(at, limit=64)
+    if at > len(v.items):
+        raise Panic('Bounds', 'split_off out of bounds')
+    tail = v.items[at:]
+    del v.items[at:]
+    return StrV(tail) if isinstance(v, StrV) else VecV(tail)
+
+
+@summary(r'std::vec::Vec::<.*>::append')
+def vec_append(m, mt, args, tys, dty):
+    a, b = deref(args[0]), deref(args[1])
+    a.items.extend(b.items)
+    del b.items[:]
+    return Agg('tuple', '()', [])
+
+
+@summary(r'std::vec::Vec::<.*>::retain::<.*>|std::string::String::retain::<.*>')
+def vec_retain(m, mt, args, tys, dty):
+    v = deref(args[0])
+    keep = []
+    holder = [args[1]]
+    fref = args[1] if isinstance(args[1], Ref) else Ref(holder, 0)
+    for idx, c in enumerate(list(v.items)):
+        arg = c if isinstance(v, StrV) else Ref(v.items, idx)
+        if m.branch_bool(call_callable(m, fref, [arg], 'bool')):
+            keep.append(c)
+    v.items[:] = keep
+    return Agg('tuple', '()', [])
+
+
+@summary(r'std::string::String::remove')
+def string_remove(m, mt, args, tys, dty):
+    v = deref(args[0])
+    i = args[1]
+    if is_sym(i):
+        i = m.concretize(i, limit=64)
+    if not (0 <= i < len(v.items)):
+        raise Panic('Bounds', 'String::remove out of bounds')
+    return v.items.pop(i)
+
+
+_WS = (32, 9, 10, 11, 12, 13)
+
+
+def _is_ws(m, c):
+    if isinstance(c, int):
+        return c in _WS
+    if isinstance(c, IntRender):
+        return False
+    return m.branch_bool(z3.Or([c == w for w in _WS]))
+
+
+@summary(r'core::str::<impl str>::(trim|trim_start|trim_end|trim_left|trim_right)')
+def str_trim_ws(m, mt, args, tys, dty):
+    sl = str_slice(args[0])
+    lo, hi = sl.lo, sl.hi
+    op = mt.group(1)
+    if op in ('trim', 'trim_start', 'trim_left'):
+        while lo < hi and _is_ws(m, sl.base[lo]):
+            lo += 1
+    if op in ('trim', 'trim_end', 'trim_right'):
+        while hi > lo and _is_ws(m, sl.base[hi - 1]):
+            hi -= 1
+    return SliceV(sl.base, lo, hi)
+
+
+@summary(r'core::str::<impl str>::(trim_matches|trim_left_matches)::<char>')
+def str_trim_matches_char2(m, mt, args, tys, dty):
+    sl = str_slice(args[0])
+    p = _pattern_codes(args[1])[0]
+    lo, hi = sl.lo, sl.hi
+    while lo < hi and char_eq(m, sl.base[lo], p):
+        lo += 1
+    if mt.group(1) == 'trim_matches':
+        while hi > lo and char_eq(m, sl.base[hi - 1], p):
+            hi -= 1
+    return SliceV(sl.base, lo, hi)
+
+
+@summary(r'core::str::<impl str>::(strip_prefix|strip_suffix)::<(char|&str|&std::string::String)>')
+def str_strip(m, mt, args, tys, dty):
+    sl = str_slice(args[0])
+    pat = deref(args[1])
+    codes = [pat] if isinstance(pat, int) else list(str_items(pat))
+    n = len(codes)
+    if n > len(sl):
+        return NONE()
+    seg = [sl.base[sl.lo + i] for i in range(n)] if mt.group(1) == 'strip_prefix' else [sl.base[sl.hi - n + i] for i in range(n)]
+    for c, p in zip(seg, codes):
+        if not isinstance(p, int):
+            raise Unsupported('strip_* with a symbolic pattern')
+        if not char_eq(m, c, p):
+            return NONE()
+    return some(SliceV(sl.base, sl.lo + n, sl.hi) if mt.group(1) == 'strip_prefix' else SliceV(sl.base, sl.lo, sl.hi - n))
+
+
+@summary(r'core::str::<impl str>::repeat')
+def str_repeat(m, mt, args, tys, dty):
+    n = args[1]
+    if is_sym(n):
+        n = m.concretize(n, limit=64)
+    if n > 100000:
+        raise BoundExceeded('str::repeat %d' % n)
+    return StrV(list(str_items(args[0])) * n)
+
+
+@summary(r'core::str::<impl str>::is_char_boundary')
+def str_is_char_boundary(m, mt, args, tys, dty):
+    i = args[1]
+    if is_sym(i):
+        i = m.concretize(i, limit=64)
+    return 0 <= i <= len(str_items(args[0]))       # the crate only ever builds ASCII text
+
+
+@summary(r'core::char::methods::<impl char>::(to_ascii_lowercase|to_ascii_uppercase)|core::num::<impl u8>::(to_ascii_lowercase|to_ascii_uppercase)')
+def char_ascii_case(m, mt, args, tys, dty):
+    c = deref(args[0])
+    lower = 'lower' in mt.group(0)
+    a, z, d = (65, 90, 32) if lower else (97, 122, -32)
+    if not is_sym(c):
+        return c + d if a <= c <= z else c
+    return z3.If(z3.And(c >= a, c <= z), c + d, c)
+
+
+@summary(r'core::char::methods::<impl char>::is_digit')
+def char_is_digit_radix(m, mt, args, tys, dty):
+    c, radix = deref(args[0]), args[1]
+    if radix != 10:
+        raise Unsupported('char::is_digit radix %r' % (radix,))
+    return z3.And(c >= 48, c <= 57) if is_sym(c) else (48 <= c <= 57)
+
+
+@summary(r'core::char::methods::<impl char>::is_whitespace')
+def char_is_ws(m, mt, args, tys, dty):
+    c = deref(args[0])
+    return z3.Or([c == w for w in _WS]) if is_sym(c) else (c in _WS)
+
+
+# ---- more iterator consumers / adaptors (generic over the it_next protocol) ----------------------------------------------------
+def _drain(m, it, limit=100000):
+    out = []
+    while True:
+        e = it_next(m, it)
+        if e is None:
+            return out
+        out.append(e)
+        if len(out) > limit:
+            raise BoundExceeded('iterator longer than %d' % limit)
+
+
+@summary(r'<.* as Iterator>::for_each::<.*>')
+def iter_for_each(m, mt, args, tys, dty):
+    it, f = args
+    holder = [f]
+    while True:
+        e = it_next(m, it)
+        if e is None:
+            return Agg('tuple', '()', [])
+        call_callable(m, Ref(holder, 0), [e], '()')
+
+
+@summary(r'<.* as Iterator>::rposition::<.*>')
+def iter_rposition(m, mt, args, tys, dty):
+    it, f = args
+    items = _drain(m, it)
+    holder = [f]
+    for i in range(len(items) - 1, -1, -1):
+        if m.branch_bool(call_callable(m, Ref(holder, 0), [items[i]], 'bool')):
+            return some(i)
+    return NONE()
+
+
+@summary(r'<.* as Iterator>::(find|find_map)::<.*>')
+def iter_find(m, mt, args, tys, dty):
+    it, f = args
+    holder = [f]
+    while True:
+        e = it_next(m, it)
+        if e is None:
+            return NONE()
+        if mt.group(1) == 'find':
+            if m.branch_bool(call_callable(m, Ref(holder, 0), [Ref([e], 0)], 'bool')):
+                return some(e)
+        else:
+            r = call_callable(m, Ref(holder, 0), [e], 'Option')
+            if r.variant == 'Some':
+                return r
+
+
+class SkipWhileV:
+    def __init__(self, inner, f):
+        self.inner, self.f, self.done = inner, f, False
+
+
+class StepByV:
+    def __init__(self, inner, n):
+        self.inner, self.n, self.first = inner, n, True
+
+
+class ListIterV:
+    """an already materialised sequence (result of rev() over an adaptor chain etc.)"""
+    def __init__(self, items):
+        self.items, self.i = list(items), 0
+
+
+_it_next_prev = it_next
+
+
+def it_next(m, it):
+    v = deref(it)
+    if isinstance(v, SkipWhileV):
+        while True:
+            e = it_next(m, v.inner)
+            if e is None:
+                return None
+            if v.done:
+                return e
+            if not m.branch_bool(call_callable(m, Ref([v.f], 0), [Ref([e], 0)], 'bool')):
+                v.done = True
+                return e
+    if isinstance(v, StepByV):
+        if v.first:
+            v.first = False
+            return it_next(m, v.inner)
+        e = None
+        for _ in range(v.n):
+            e = it_next(m, v.inner)
+            if e is None:
+                return None
+        return e
+    if isinstance(v, ListIterV):
+        if v.i >= len(v.items):
+            return None
+        v.i += 1
+        return v.items[v.i - 1]
+    return _it_next_prev(m, it)
+
+
+_sys.modules[__name__].it_next = it_next
+
+
+@summary(r'<.* as Iterator>::skip_while::<.*>')
+def iter_skip_while(m, mt, args, tys, dty):
+    return SkipWhileV(args[0], args[1])
+
+
+@summary(r'<.* as Iterator>::step_by')
+def iter_step_by(m, mt, args, tys, dty):
+    n = args[1]
+    if is_sym(n):
+        n = m.concretize(n, limit=64)
+    return StepByV(args[0], n)
+
+
+@summary(r'<.* as Iterator>::(cloned|peekable|fuse)(?:::<.*>)?')
+def iter_identity_adaptors(m, mt, args, tys, dty):
+    if mt.group(1) == 'cloned':
+        return CopiedV(args[0])
+    return args[0]
+
+
+for _i, (_n, _rx, _fn) in enumerate(SUMMARIES):
+    if _n == 'iter_rev_generic':
+        def _rev_any(m, mt, args, tys, dty, _orig=_fn):
+            it = args[0]
+            if isinstance(deref(it), IterV):
+                return _orig(m, mt, args, tys, dty)
+            # rev over an adaptor chain: materialise (all sources here are finite slices / ranges)
+            return ListIterV(list(reversed(_drain(m, it))))
+        SUMMARIES[_i] = (_n, _rx, _rev_any)
+    if _n == 'iter_next_back':
+        def _next_back_any(m, mt, args, tys, dty, _orig=_fn):
+            v = deref(args[0])
+            if isinstance(v, IterV):
+                return _orig(m, mt, args, tys, dty)
+            if isinstance(v, ListIterV):
+                if v.i >= len(v.items):
+                    return NONE()
+                return some(v.items.pop())
+            raise Unsupported('next_back on %s' % type(v).__name__)
+        SUMMARIES[_i] = (_n, _rx, _next_back_any)
+
+
+@summary(r'<.* as Iterator>::(max|min)(?:::<.*>)?')
+def iter_max_min(m, mt, args, tys, dty):
+    items = [deref(e) for e in _drain(m, args[0])]
+    if not items:
+        return NONE()
+    best = items[0]
+    for x in items[1:]:
+        if mt.group(1) == 'max':
+            best = z3.If(x >= best, x, best) if (is_sym(x) or is_sym(best)) else max(x, best)
+        else:
+            best = z3.If(x < best, x, best) if (is_sym(x) or is_sym(best)) else min(x, best)
+    return some(best)
+
+
+@summary(r'core::char::methods::<impl char>::eq_ignore_ascii_case|(?:core::)?char::methods::<impl char>::eq_ignore_ascii_case|core::num::<impl u8>::eq_ignore_ascii_case')
+def char_eq_ignore_case(m, mt, args, tys, dty):
+    a, b = deref(args[0]), deref(args[1])
+
+    def low(c):
+        if not is_sym(c):
+            return c + 32 if 65 <= c <= 90 else c
+        return z3.If(z3.And(c >= 65, c <= 90), c + 32, c)
+    la, lb = low(a), low(b)
+    return la == lb
